@@ -438,6 +438,18 @@ where
                 );
                 if enqueued {
                     self.piece_refs.push(piece);
+                } else {
+                    // The entry cannot be written (it exceeds the entry size limit or the flush buffer is
+                    // full). Any older version of it must not be served instead: invalidate it like a delete.
+                    let hash = piece.hash();
+                    let stats = self.indexer.insert_tombstone(hash, sequence).map(|addr| InvalidStats {
+                        block: addr.block,
+                        size: bits::align_up(PAGE, addr.len as usize),
+                    });
+                    self.tombstone_infos.push(TombstoneInfo {
+                        tombstone: Tombstone { hash, sequence },
+                        stats,
+                    });
                 }
                 report(enqueued);
                 self.submit_queue_size.fetch_sub(estimated_size, Ordering::Relaxed);
